@@ -50,6 +50,25 @@ fn dimacs_lit(rng: &mut StdRng, nvars: i64) -> String {
     }
 }
 
+/// comment texts (without the marker): short, with control characters right in front of the line end, non-ASCII,
+/// and longer than 64 / 80 bytes (word-at-a-time scanners change gear on long lines)
+pub fn comment_text(rng: &mut StdRng) -> String {
+    match rng.gen_range(0..12) {
+        0 => String::new(),
+        1 => " hello".into(),
+        2 => " 1 2 0".into(),
+        3 => "\tx".into(),
+        4 => " ends in a vertical tab\u{b}".into(),
+        5 => " form feed\u{c}".into(),
+        6 => " \u{b}\u{b}\u{b}\u{b}\u{b}\u{b}\u{b}".into(),
+        7 => format!(" {}", "long comment text ".repeat(rng.gen_range(4..6))),
+        8 => format!(" {}{}", "x".repeat(rng.gen_range(57..90)), ["", " 1 0", "\u{b}"][rng.gen_range(0..3)]),
+        9 => " caf\u{e9} 20\u{b0} 7 0".into(),
+        10 => " \u{1}\u{7f}\u{1f}".into(),
+        _ => " p cnf 1 1".into(),
+    }
+}
+
 /// DIMACS CNF / WCNF / GCNF
 pub fn gen_dimacs(kind: &str, rng: &mut StdRng) -> Vec<u8> {
     let crlf = rng.gen_range(0..6) == 0;
@@ -59,7 +78,12 @@ pub fn gen_dimacs(kind: &str, rng: &mut StdRng) -> Vec<u8> {
     let mut out = String::new();
     let comment = |rng: &mut StdRng, out: &mut String| {
         if rng.gen_range(0..4) == 0 {
-            out.push_str(["c", "c hello", "c 1 2 0", "c\tx", "cfoo"][rng.gen_range(0..5)]);
+            if rng.gen_range(0..3) == 0 {
+                out.push_str(["c", "c hello", "c 1 2 0", "c\tx", "cfoo", "created by gen v1.2", "c0", "cc 1 0"][rng.gen_range(0..8)]);
+            } else {
+                out.push('c');
+                out.push_str(&comment_text(rng));
+            }
             out.push_str(&eol(rng, crlf));
         }
         if rng.gen_range(0..8) == 0 {
@@ -327,9 +351,9 @@ pub fn gen_btor2(rng: &mut StdRng) -> Vec<u8> {
             3 => format!("{} state {}", id, a),
             4 => format!("{} {} {} {} {}", id, BTOR_BIN[rng.gen_range(0..12)], a, b, a),
             5 => format!("{} {} {} {}", id, BTOR_UN[rng.gen_range(0..5)], a, b),
-            6 => format!("{} const {} {}", id, a, ["0", "1", "0101", "11111111"][rng.gen_range(0..4)]),
-            7 => format!("{} constd {} {}", id, a, ["0", "-1", "255", "-128"][rng.gen_range(0..4)]),
-            8 => format!("{} consth {} {}", id, a, ["0", "ff", "DEADbeef", "7"][rng.gen_range(0..4)]),
+            6 => format!("{} const {} {}", id, a, ["0", "1", "0101", "11111111", "1010101010101010101010101", "0000000011111111000000001111111100000000111111110000000011111111011"][rng.gen_range(0..6)]),
+            7 => format!("{} constd {} {}", id, a, ["0", "-1", "255", "-128", "18446744073709551616", "-340282366920938463463374607431768211456"][rng.gen_range(0..6)]),
+            8 => format!("{} consth {} {}", id, a, ["0", "ff", "DEADbeef", "7", "0123456789abcdefABCDEF0123456789", "a5"][rng.gen_range(0..6)]),
             9 => format!("{} {} {}", id, ["one", "ones", "zero"][rng.gen_range(0..3)], a),
             10 => format!("{} slice {} {} {} {}", id, a, b, rng.gen_range(0..9), rng.gen_range(0..4)),
             11 => format!("{} {} {} {} {}", id, ["uext", "sext"][rng.gen_range(0..2)], a, b, rng.gen_range(0..9)),
@@ -369,7 +393,35 @@ pub fn mutate(doc: &[u8], rng: &mut StdRng) -> Vec<u8> {
     if d.is_empty() {
         return vec![rng.gen()];
     }
-    match rng.gen_range(0..14) {
+    match rng.gen_range(0..17) {
+        14 | 15 => {
+            // a byte that differs from a byte of the document in a few bits (case bit, high bit, 0x40, 0x10, neighbours):
+            // what table / bit-trick classifiers confuse with it - in its place, or right behind it
+            let i = rng.gen_range(0..d.len());
+            let b = d[i];
+            let alias = match rng.gen_range(0..10) {
+                0 => b ^ 0x20,
+                1 => b ^ 0x40,
+                2 => b ^ 0x80,
+                3 => b ^ 0x10,
+                4 => b ^ 0xc0,
+                5 => b ^ 0x60,
+                6 => b.wrapping_add(1),
+                7 => b.wrapping_sub(1),
+                8 => b & 0x1f,
+                _ => b ^ 0x08,
+            };
+            if rng.gen_bool(0.5) { d[i] = alias; } else { d.insert(i + 1, alias); }
+        }
+        16 => {
+            // the same right behind the end of a token
+            let ends: Vec<usize> = (1..=d.len()).filter(|&i| !b" \t\r\n".contains(&d[i - 1]) && (i == d.len() || b" \t\r\n".contains(&d[i]))).collect();
+            if let Some(&e) = ends.get(rng.gen_range(0..ends.len().max(1))) {
+                let b = d[e - 1];
+                let alias = [b ^ 0x20, b ^ 0x40, b ^ 0x80, b ^ 0x10, b & 0x1f, 0x12, 0x0b][rng.gen_range(0..7)];
+                d.insert(e, alias);
+            }
+        }
         0 => {
             let i = rng.gen_range(0..d.len());
             d[i] = rng.gen();
@@ -609,7 +661,7 @@ pub fn render_dimacs(v: &DimacsValue, canonical: bool, rng: &mut StdRng) -> Vec<
         if canonical { return; }
         for _ in 0..rng.gen_range(0..3) {
             match rng.gen_range(0..6) {
-                0 => { out.push_str(["c", "c comment", "c 1 2 0", "c\tx", "cc", "c limit 20\u{b0} 7 0", "c \u{e9}t\u{e9} \u{20ac} 1 -2 0", "c a fairly long comment line with an \u{fc}mlaut near its end 3 0"][rng.gen_range(0..8)]); out.push_str(if crlf { "\r\n" } else { "\n" }); }
+                0 => { if rng.gen_bool(0.5) { out.push_str(["c", "c comment", "c 1 2 0", "c\tx", "cc", "c limit 20\u{b0} 7 0", "c \u{e9}t\u{e9} \u{20ac} 1 -2 0", "c a fairly long comment line with an \u{fc}mlaut near its end 3 0", "created by gen v1.2", "c0 1 0"][rng.gen_range(0..10)]); } else { out.push('c'); out.push_str(&comment_text(rng)); } out.push_str(if crlf { "\r\n" } else { "\n" }); }
                 1 => { out.push_str(if crlf { "\r\n" } else { "\n" }); }
                 2 => { out.push_str([" \n", "\t\n", "  \t \n"][rng.gen_range(0..3)]); }
                 _ => {}
@@ -681,7 +733,9 @@ pub fn render_log(v: &LogValue, canonical: bool, unknown_lines: bool, rng: &mut 
         if canonical { return; }
         for _ in 0..rng.gen_range(0..3) {
             if unknown_lines && rng.gen_bool(0.5) {
-                out.push_str(["\n", "c\n", "foo bar\n", " s SATISFIABLE\n", "x 1 2 0\n", "progress 20\u{b0} v 7 0\n", "\u{e9}\n"][rng.gen_range(0..7)]);
+                // lines that are NOT value / status / comment lines although they nearly look like ones
+                out.push_str(["\n", "c\n", "foo bar\n", " s SATISFIABLE\n", "x 1 2 0\n", "progress 20\u{b0} v 7 0\n", "\u{e9}\n",
+                              "v\t7 8 0\n", "s\tUNSATISFIABLE\n", "vv 1 0\n", "sx\n", "V 1 0\n", "S SATISFIABLE\n", "C x\n", "v1 0\n", "sSATISFIABLE\n"][rng.gen_range(0..16)]);
             } else {
                 out.push_str(["c hello\n", "c \n", "c s SATISFIABLE\n", "c v 1 0\n", "c conflicts 12\u{b7}10\u{b3} v 3 0\n", "c \u{20ac}\n"][rng.gen_range(0..6)]);
             }
